@@ -44,6 +44,15 @@ def check_schema(schema, acc=None):
     except Exception as e:  # noqa
         bad(f'load-raises:{type(e).__name__}@{tb_where(e)}', f'loading the saved model raised {e!r}')
         return 'load-raises', viol
+    ck3 = None
+    try:
+        from ndn.app_support.light_versec.binary import LvsModel
+        bare = LvsModel.parse(bytes(model.encode()))
+        bare.symbols = []          # documented as optional: only needed for the identifiers of named patterns
+        ck3 = Checker(bare, FNS)
+    except Exception as e:  # noqa
+        bad(f'no-symbols-raises:{type(e).__name__}@{tb_where(e)}', f'building a checker from the model without its symbol table raised {e!r}')
+        return 'load-raises', viol
     ref = lvs_ref.RefSchema(schema, FNS)
     lmax = ref.max_len()
     n = 0
@@ -63,10 +72,18 @@ def check_schema(schema, acc=None):
                 kind = 'spurious-match' if extra and not miss else ('missed-match' if miss and not extra else 'different-matches')
                 bad(f'{kind}|{label}', f'name /{"/".join(toks)}: library reports {fmt(got)}, the source text describes {fmt(want)}')
                 break
+        if not viol:
+            try:
+                got3 = {r for r, _ in lib_matches(ck3, list(name), ids)}
+                if got3 != {r for r, _ in want}:
+                    bad('different-rules|no-symbols', f'name /{"/".join(toks)}: the model without symbol table reports rules {sorted(got3)}, '
+                                                      f'the source text describes {sorted({r for r, _ in want})}')
+            except Exception as e:  # noqa
+                bad(f'match-raises:{type(e).__name__}@{tb_where(e)}|no-symbols', f'match(/{"/".join(toks)}) raised {e!r}')
         if viol:
             break
     if acc is not None:
-        acc.transitions += 2 * n
+        acc.transitions += 3 * n
     return ('ok' if not viol else 'viol'), viol
 
 
